@@ -8,6 +8,11 @@ TB = ("Trusted: go/ssa (source->SSA), the govc executor/contract evaluator, the 
       "externals and physical bounds are listed in the evidence file on every run.")
 
 CLAIMS = {
+ "C08": dict(
+   text="Deductive proof for byte strings of symbolic length and content (no bound below 2^40): every packet-header decoder in package protocol (Ethernet/VLAN, ARP, IPv4, IPv6 with hop-by-hop, routing, fragment headers and options, ICMP, TCP, UDP, IGMPv1/2, IGMPv3 query/record/report, DHCP and its option parser, LLDP TLVs) is verified on its own against a total contract: every index, slice, nil dereference, type assertion, make and division is proved unable to panic, every loop has an inductive invariant and a strictly decreasing variant bounded by the input, and every make() is proved to allocate at most max(4096, len(input)) elements. Callees are used through their contracts only.",
+   note="Time is decided as termination with an input-bounded variant, memory as a per-allocation bound (append growth is not bounded separately). encoding/binary.Read and bytes.Buffer.Write are assumed contracts keyed by the static target type; binary.BigEndian.* and bytes.NewBuffer/Len are executed from GOROOT source. " + TB,
+   technique="contract-based deductive verification: safety + termination obligations from symbolic execution of go/ssa, QF_AUFBV, z3/cvc5",
+   design="DESIGN.md section 4 C08"),
  "C18": dict(
    text="Deductive proof by induction over all call histories: each of the 16 setters has a two-state contract (own mask bit set, own value bit = polarity, every other bit unchanged, proved for all 2^64 data/mask states), a lemma function proves that the ghost words touched/last of the statement are an invariant preserved by every operation and established by the constructor, and the match-field constructor is proved to carry data and mask into an NXM_NX_CT_STATE field (class 1, field 105, masked, 8 bytes).",
    note="Flag-to-bit mapping is the OVS CS_* numbering written as literals in the contracts. " + TB,
